@@ -7,15 +7,19 @@ import vlib, gadata
 def run(tier, rep):
     exe = vlib.build_harness('checks/c12.cc', 'plain', ['-rdynamic'])
     d = vlib.scratch('c12')
+    gadir = os.path.join(d, 'ga')
+    gadata.install_tree(gadir)
+    senv = dict(os.environ)
+    senv['BXDECAY0_DBD_GA_DATA_DIR'] = gadir
     if tier == 'quick':
-        jobs = [('l1a', 2), ('l1b', 2), ('l1c', 2), ('l2a', 2), ('l2b', 2), ('l2c', 1), ('l3a', 2), ('l3b', 2), ('l3c', 1), ('l3d', 1), ('l3e', 1)]
+        jobs = [('l1a', 2), ('l1b', 2), ('l1c', 2), ('l2a', 2), ('l2b', 2), ('l2c', 1), ('l3a', 2), ('l3b', 2), ('l3c', 1), ('l3d', 1), ('l3e', 1), ('l2e', 2)]
     else:
-        jobs = [('l1a', 4), ('l1b', 3), ('l1c', 4), ('l2a', 3), ('l2b', 3), ('l2c', 2), ('l2d', 2), ('l3a', 3), ('l3b', 3), ('l3c', 2), ('l3d', 2), ('l3e', 2)]
+        jobs = [('l1a', 4), ('l1b', 3), ('l1c', 4), ('l2a', 3), ('l2b', 3), ('l2c', 2), ('l2d', 2), ('l3a', 3), ('l3b', 3), ('l3c', 2), ('l3d', 2), ('l3e', 2), ('l2e', 3), ('l2f', 2)]
 
     def one(j):
         h, b = j
         out = os.path.join(d, '%s_%d.json' % (h, b))
-        r = subprocess.run([exe, '--harness', h, '--bound', str(b), '--out', out, '--max-schedules', '400000'], timeout=3300,
+        r = subprocess.run([exe, '--harness', h, '--bound', str(b), '--out', out, '--max-schedules', '400000'], timeout=3300, env=senv,
                            stdout=subprocess.PIPE, stderr=subprocess.PIPE, text=True)
         if r.returncode != 0 or 'HARNESS-ERROR' in r.stdout:
             raise SystemExit('HARNESS-ERROR: c12 %s exited %d %s' % (h, r.returncode, r.stdout[-300:]))
@@ -37,10 +41,7 @@ def run(tier, rep):
             rep.violation(v['key'], v['text'])
     # ---- free-running race pass (ThreadSanitizer build of /repo)
     texe = vlib.build_harness('checks/c12_tsan.cc', 'tsan', ['-rdynamic'])
-    gadir = os.path.join(d, 'ga')
-    gadata.install_tree(gadir)
-    env = dict(os.environ)
-    env['BXDECAY0_DBD_GA_DATA_DIR'] = gadir
+    env = dict(senv)
     env['TSAN_OPTIONS'] = 'halt_on_error=0 exitcode=66 report_signal_unsafe=0'
     reps = 15 if tier == 'quick' else 150
 
@@ -79,9 +80,9 @@ def run(tier, rep):
         'evaluations': sched, 'distinct_nontrivial': states, 'distinct_outcomes': outcomes, 'exhaustive': exhaustive,
         'race_pass_repetitions': reps, 'race_reports': len(races), 'samples': samples or ['none'],
         'rule': 'cooperative scheduler over interposed synchronisation points (gsl_set_error_handler_off / gsl_set_error_handler / gsl_integration_qng entry+exit / '
-                'pthread_mutex_lock+unlock, a waiting lock is blocked; in the L3 harnesses also every request to the user-provided deviate source) of the real library; every schedule up to the stated preemption bound is run in a forked child; '
+                'pthread_mutex_lock+unlock, a waiting lock is blocked; every call of a libc function with hidden process-wide state - strtok, rand, localtime/gmtime/ctime/asctime, drand48 family, setlocale; in the L3 harnesses also every request to the user-provided deviate source) of the real library; every schedule up to the stated preemption bound is run in a forked child; '
                 'pruning by observable state (handler state, per-thread step counters, blocked set) per remaining budget; L1 = threads calling decay0_gauss (smooth '
-                'integrand / integrand that makes QNG return GSL_ETOL), L2 = whole generators (construct, configure, initialise, 2 shots) compared with their sequential '
+                'integrand / integrand that makes QNG return GSL_ETOL), L2 = whole generators (construct, configure, initialise, 2 shots; l2e/l2f: gA generators loading synthetic tables) compared with their sequential '
                 'events; oracle: no signal, no deadlock, handler restored, sequential results. Plus a free-running ThreadSanitizer pass of 8 concurrent generators '
                 '(incl. gA modes and first-use of the plumbing entry points) for unsynchronised accesses the scheduler cannot see',
     })
